@@ -464,6 +464,8 @@ func checkC03(c *Ctx, r *Report, tier string) {
 	snapshotAndCompactionAtomic(c, r, "C03.R9")
 	persistOrder(c, r, "C03.R9")
 	readyPartsIndependent(c, r, "C03.R9")
+	r.Rule("C03.R10", "what is read back after a restart is what was written: entries decoded by the log store own their payload bytes", 1)
+	decodedEntriesOwnTheirBytes(c, r, "C03.R10")
 }
 
 func c03R2(c *Ctx, r *Report, ro *roles) {
@@ -1052,6 +1054,8 @@ func checkC05(c *Ctx, r *Report, tier string) {
 	persistOrder(c, r, "C05.R10")
 	snapshotAndCompactionAtomic(c, r, "C05.R10")
 	readyPartsIndependent(c, r, "C05.R10")
+	r.Rule("C05.R11", "the membership record of a group is nil, ApplyConfChange's result or a snapshot's ConfState — never an invented value", 1)
+	confStateOnlyFromRaft(c, r, "C05.R11")
 	// R7: Step error propagation
 	for _, f := range c.FuncsInPkg("storage/raft") {
 		if !c.isProd(f) {
